@@ -25,6 +25,7 @@ import (
 	"regexp"
 	"sort"
 	"strings"
+	"sync"
 	"time"
 
 	"github.com/mimoo/disco/libdisco"
@@ -55,6 +56,13 @@ type Spec struct {
 	// (the four ssh services share ssh.private-key, two ftp instances share ftp.pem* ...)
 	// share that item.
 	More []string `json:"more,omitempty"`
+	// Clients: number of clients that observe EACH identity-bearing instance (and the agent
+	// listener) in this run. 0 or 1: one client per instance, one instance after the other.
+	// >= 2: every instance gets that many connections, each is driven to just before the step
+	// that makes the server use its identity (TLS handshake after AUTH TLS / STARTTLS / LDAP
+	// StartTLS, SSH key exchange, Noise handshake), then all clients of all instances are
+	// released together from one barrier - the first uses of the identity overlap.
+	Clients int `json:"clients,omitempty"`
 }
 
 // instT is one configured service instance that presents a persisted identity item.
@@ -110,6 +118,59 @@ type Identity struct {
 	Items  map[string]string `json:"items"`          // "ssh" host key, "ftp"/"smtp"/"ldap" cert DER, "agent" public key (hex)
 	Errs   map[string]string `json:"errs,omitempty"` // per item: why it could not be observed
 	Notes  []string          `json:"notes,omitempty"`
+	// Clients: with Spec.Clients >= 2, what every single concurrent client of an instance was
+	// presented (Items then holds the first value any of them saw, Errs the first failure).
+	Clients map[string][]ClientObs `json:"clients,omitempty"`
+}
+
+// ClientObs is what one of several concurrent clients of one instance saw.
+type ClientObs struct {
+	V   string `json:"v,omitempty"`
+	Err string `json:"err,omitempty"`
+}
+
+// barrier releases its n participants together. Every participant arrives exactly once -
+// at its gate or, when it fails before reaching it, when it gives up - so nobody waits for
+// a client that will never come.
+type barrier struct{ wg sync.WaitGroup }
+
+func newBarrier(n int) *barrier {
+	b := &barrier{}
+	b.wg.Add(n)
+	return b
+}
+
+// participant returns the gate function of one participant: the first call arrives and
+// waits for everybody else, later calls return at once.
+func (b *barrier) participant() func() {
+	var once sync.Once
+	return func() {
+		once.Do(func() {
+			b.wg.Done()
+			b.wg.Wait()
+		})
+	}
+}
+
+func noGate() {}
+
+// record folds the per-client observations of one instance into the identity.
+func (ident *Identity) record(name string, obs []ClientObs) {
+	if ident.Clients == nil {
+		ident.Clients = map[string][]ClientObs{}
+	}
+	ident.Clients[name] = obs
+	for k, o := range obs {
+		if o.Err != "" {
+			if _, have := ident.Errs[name]; !have {
+				ident.Errs[name] = fmt.Sprintf("client %d of %d concurrent clients: %s", k+1, len(obs), o.Err)
+			}
+			continue
+		}
+		if _, have := ident.Items[name]; !have {
+			ident.Items[name] = o.V
+		}
+	}
 }
 
 type childMsg struct {
@@ -179,41 +240,93 @@ func childMain(specJSON string) {
 		nc.SetDeadline(time.Now().Add(ioTimeout))
 		return nc
 	}
-	observe := func(in instT, fn func(nc *lab.ClientNetConn) (string, error)) {
-		nc := dial(in.Port)
-		v, err := fn(nc)
-		nc.Close()
-		if err != nil {
-			ident.Errs[in.Name] = err.Error()
-			return
-		}
-		ident.Items[in.Name] = v
-	}
-	for _, in := range spec.instances() {
+	observer := func(in instT) func(nc *lab.ClientNetConn, gate func()) (string, error) {
 		switch in.Item {
 		case "ssh":
 			if in.Type == "ssh-proxy" || in.Type == "ssh-jail" {
 				// the host key is offered (and its signature verified) during key exchange;
 				// these two types are not taken any further than that (the proxy would dial
 				// its director on a password attempt)
-				observe(in, sshHostKeyNoAuth)
-			} else {
-				observe(in, sshHostKey)
+				return sshHostKeyNoAuth
 			}
+			return sshHostKey
 		case "ftp":
-			observe(in, ftpCert)
+			return ftpCert
 		case "smtp":
-			observe(in, smtpCert)
+			return smtpCert
 		case "ldap":
-			observe(in, ldapCert)
+			return ldapCert
+		}
+		return nil
+	}
+	if spec.Clients < 2 {
+		for _, in := range spec.instances() {
+			fn := observer(in)
+			if fn == nil {
+				continue
+			}
+			nc := dial(in.Port)
+			v, err := fn(nc, noGate)
+			nc.Close()
+			if err != nil {
+				ident.Errs[in.Name] = err.Error()
+				continue
+			}
+			ident.Items[in.Name] = v
+		}
+	} else {
+		// the first uses of every identity item overlap: all clients of all instances are
+		// connected and prepared, then released together
+		var insts []instT
+		for _, in := range spec.instances() {
+			if observer(in) != nil {
+				insts = append(insts, in)
+			}
+		}
+		bar := newBarrier(len(insts) * spec.Clients)
+		results := make([][]ClientObs, len(insts))
+		var wg sync.WaitGroup
+		for ii, in := range insts {
+			results[ii] = make([]ClientObs, spec.Clients)
+			for k := 0; k < spec.Clients; k++ {
+				nc := dial(in.Port)
+				wg.Add(1)
+				go func(in instT, slot *ClientObs, nc *lab.ClientNetConn) {
+					defer wg.Done()
+					arrive := bar.participant()
+					defer arrive() // a client that failed early must not hold up the others
+					gate := func() {
+						arrive()
+						// waiting for the others is not the server's time
+						nc.SetDeadline(time.Now().Add(ioTimeout))
+					}
+					v, err := observer(in)(nc, gate)
+					nc.Close()
+					if err != nil {
+						slot.Err = err.Error()
+						return
+					}
+					slot.V = v
+				}(in, &results[ii][k], nc)
+			}
+		}
+		wg.Wait()
+		for ii, in := range insts {
+			ident.record(in.Name, results[ii])
 		}
 	}
 	if spec.Agent {
-		v, err := agentKey()
+		obs, err := agentKey(spec.Clients)
 		if err != nil {
 			ident.Errs["agent"] = err.Error()
+		} else if spec.Clients < 2 {
+			if obs[0].Err != "" {
+				ident.Errs["agent"] = obs[0].Err
+			} else {
+				ident.Items["agent"] = obs[0].V
+			}
 		} else {
-			ident.Items["agent"] = v
+			ident.record("agent", obs)
 		}
 	}
 
@@ -301,15 +414,21 @@ func tlsPeer(nc net.Conn) (string, error) {
 	return hex.EncodeToString(raw), nil
 }
 
-func sshHostKey(nc *lab.ClientNetConn) (string, error) {
-	return sshHostKeyWith(nc, []ssh.AuthMethod{ssh.Password("root")})
+// Every observer calls gate() exactly once, immediately before the step that makes the
+// server use its identity.
+
+func sshHostKey(nc *lab.ClientNetConn, gate func()) (string, error) {
+	return sshHostKeyWith(nc, gate, []ssh.AuthMethod{ssh.Password("root")})
 }
 
-func sshHostKeyNoAuth(nc *lab.ClientNetConn) (string, error) {
-	return sshHostKeyWith(nc, nil)
+func sshHostKeyNoAuth(nc *lab.ClientNetConn, gate func()) (string, error) {
+	return sshHostKeyWith(nc, gate, nil)
 }
 
-func sshHostKeyWith(nc *lab.ClientNetConn, auth []ssh.AuthMethod) (string, error) {
+func sshHostKeyWith(nc *lab.ClientNetConn, gate func(), auth []ssh.AuthMethod) (string, error) {
+	// the server signs the key exchange with its host key once the client has sent its
+	// version and KEXINIT: nothing of that has been sent yet
+	gate()
 	var key []byte
 	cfg := &ssh.ClientConfig{
 		User: "root",
@@ -335,7 +454,7 @@ func sshHostKeyWith(nc *lab.ClientNetConn, auth []ssh.AuthMethod) (string, error
 	return hex.EncodeToString(key), nil
 }
 
-func ftpCert(nc *lab.ClientNetConn) (string, error) {
+func ftpCert(nc *lab.ClientNetConn, gate func()) (string, error) {
 	if code, txt, err := readReply(nc); err != nil || code != "220" {
 		return "", fmt.Errorf("ftp greeting %q: %v", txt, err)
 	}
@@ -343,10 +462,11 @@ func ftpCert(nc *lab.ClientNetConn) (string, error) {
 	if code, txt, err := readReply(nc); err != nil || code != "234" {
 		return "", fmt.Errorf("AUTH TLS answered %q: %v", txt, err)
 	}
+	gate()
 	return tlsPeer(nc)
 }
 
-func smtpCert(nc *lab.ClientNetConn) (string, error) {
+func smtpCert(nc *lab.ClientNetConn, gate func()) (string, error) {
 	if code, txt, err := readReply(nc); err != nil || code != "220" {
 		return "", fmt.Errorf("smtp greeting %q: %v", txt, err)
 	}
@@ -362,13 +482,14 @@ func smtpCert(nc *lab.ClientNetConn) (string, error) {
 	if code, txt, err := readReply(nc); err != nil || code != "220" {
 		return "", fmt.Errorf("STARTTLS answered %q: %v", txt, err)
 	}
+	gate()
 	return tlsPeer(nc)
 }
 
 // LDAP StartTLS extended request (RFC 4511 4.14), message id 1
 var ldapStartTLS = append([]byte{0x30, 0x1d, 0x02, 0x01, 0x01, 0x77, 0x18, 0x80, 0x16}, []byte("1.3.6.1.4.1.1466.20037")...)
 
-func ldapCert(nc *lab.ClientNetConn) (string, error) {
+func ldapCert(nc *lab.ClientNetConn, gate func()) (string, error) {
 	nc.Write(ldapStartTLS)
 	// ExtendedResponse: SEQUENCE { id 1, [APPLICATION 24] { resultCode ENUMERATED, ... } }
 	hdr := make([]byte, 2)
@@ -389,6 +510,7 @@ func ldapCert(nc *lab.ClientNetConn) (string, error) {
 	if body[7] != 0 {
 		return "", fmt.Errorf("StartTLS refused with result code %d", body[7])
 	}
+	gate()
 	return tlsPeer(nc)
 }
 
@@ -397,35 +519,40 @@ var agentLine = regexp.MustCompile(`Honeytrap Agent Server public key: ([0-9a-fA
 
 // agentKey constructs the real agent listener through the public registry on a loopback
 // port, captures the public key it announces on stdout (that line is how an operator
-// learns the key to configure agents with) and proves with a Noise_NK client handshake
-// that the listener really holds the matching private key.
-func agentKey() (string, error) {
+// learns the key to configure agents with) and proves with Noise_NK client handshakes
+// that the listener really holds the matching private key: n clients (at least one) are
+// connected first and then do their handshakes together. Per client the result is the
+// announced key (the handshake against it succeeded) or why the handshake failed.
+func agentKey(n int) ([]ClientObs, error) {
+	if n < 1 {
+		n = 1
+	}
 	fn, ok := listener.Get("agent")
 	if !ok {
-		return "", fmt.Errorf("agent listener is not registered")
+		return nil, fmt.Errorf("agent listener is not registered")
 	}
 	var lastErr error
 	for attempt := 0; attempt < 5; attempt++ {
 		probe, err := net.Listen("tcp", "127.0.0.1:0")
 		if err != nil {
-			return "", fmt.Errorf("infra: no loopback port: %v", err)
+			return nil, fmt.Errorf("infra: no loopback port: %v", err)
 		}
 		addr := probe.Addr().String()
 		probe.Close()
 
 		var cfg config.Config
 		if err := cfg.Load(strings.NewReader(fmt.Sprintf("[listener]\ntype=\"agent\"\nlisten=%q\n", addr))); err != nil {
-			return "", fmt.Errorf("infra: agent listener config: %v", err)
+			return nil, fmt.Errorf("infra: agent listener config: %v", err)
 		}
 		l, err := fn(listener.WithConfig(cfg.Listener, &cfg))
 		if err != nil {
-			return "", fmt.Errorf("constructing agent listener: %v", err)
+			return nil, fmt.Errorf("constructing agent listener: %v", err)
 		}
 		// capture what Start prints
 		old := os.Stdout
 		pr, pw, err := os.Pipe()
 		if err != nil {
-			return "", fmt.Errorf("infra: pipe: %v", err)
+			return nil, fmt.Errorf("infra: pipe: %v", err)
 		}
 		os.Stdout = pw
 		serr := l.Start(context.Background())
@@ -439,42 +566,62 @@ func agentKey() (string, error) {
 			if strings.Contains(serr.Error(), "address already in use") {
 				continue
 			}
-			return "", lastErr
+			return nil, lastErr
 		}
 		m := agentLine.FindStringSubmatch(text)
 		if m == nil {
-			return "", fmt.Errorf("agent listener did not announce its public key (printed %q)", text)
+			return nil, fmt.Errorf("agent listener did not announce its public key (printed %q)", text)
 		}
 		pub, err := hex.DecodeString(m[1])
 		if err != nil || len(pub) != 32 {
-			return "", fmt.Errorf("announced agent public key %q is not 32 bytes of hex", m[1])
+			return nil, fmt.Errorf("announced agent public key %q is not 32 bytes of hex", m[1])
 		}
 		// TCP connect trouble on loopback (ephemeral ports exhausted by other work on the
 		// machine ...) is the environment, not the sensor
-		var tc net.Conn
-		for try := 0; try < 20; try++ {
-			d := &net.Dialer{Timeout: ioTimeout}
-			if try > 0 {
-				// another loopback source address has its own ephemeral port space
-				d.LocalAddr = &net.TCPAddr{IP: net.IPv4(127, 0, byte(os.Getpid()>>8), byte(2+try))}
+		conns := make([]net.Conn, n)
+		for k := range conns {
+			var tc net.Conn
+			for try := 0; try < 20; try++ {
+				d := &net.Dialer{Timeout: ioTimeout}
+				if try > 0 {
+					// another loopback source address has its own ephemeral port space
+					d.LocalAddr = &net.TCPAddr{IP: net.IPv4(127, 0, byte(os.Getpid()>>8), byte(2+try))}
+				}
+				tc, err = d.Dial("tcp", addr)
+				if err == nil {
+					break
+				}
+				time.Sleep(250 * time.Millisecond)
 			}
-			tc, err = d.Dial("tcp", addr)
-			if err == nil {
-				break
+			if err != nil {
+				for _, c := range conns[:k] {
+					c.Close()
+				}
+				return nil, fmt.Errorf("infra: cannot connect to the agent listener on %s: %v", addr, err)
 			}
-			time.Sleep(250 * time.Millisecond)
+			conns[k] = tc
 		}
-		if err != nil {
-			return "", fmt.Errorf("infra: cannot connect to the agent listener on %s: %v", addr, err)
+		obs := make([]ClientObs, n)
+		bar := newBarrier(n)
+		var wg sync.WaitGroup
+		for k, tc := range conns {
+			wg.Add(1)
+			go func(slot *ClientObs, tc net.Conn) {
+				defer wg.Done()
+				bar.participant()()
+				tc.SetDeadline(time.Now().Add(ioTimeout))
+				cc := libdisco.Client(tc, &libdisco.Config{HandshakePattern: libdisco.Noise_NK, RemoteKey: pub})
+				err := cc.Handshake()
+				tc.Close()
+				if err != nil {
+					slot.Err = fmt.Sprintf("Noise_NK handshake against the announced key %s failed: %v", m[1], err)
+					return
+				}
+				slot.V = strings.ToLower(m[1])
+			}(&obs[k], tc)
 		}
-		tc.SetDeadline(time.Now().Add(ioTimeout))
-		cc := libdisco.Client(tc, &libdisco.Config{HandshakePattern: libdisco.Noise_NK, RemoteKey: pub})
-		err = cc.Handshake()
-		tc.Close()
-		if err != nil {
-			return "", fmt.Errorf("Noise_NK handshake against the announced key %s failed: %v", m[1], err)
-		}
-		return strings.ToLower(m[1]), nil
+		wg.Wait()
+		return obs, nil
 	}
-	return "", fmt.Errorf("infra: %v", lastErr)
+	return nil, fmt.Errorf("infra: %v", lastErr)
 }
